@@ -97,8 +97,8 @@ def impl():
   return ra
 
 
-def build_ref(ra, t, r=None):
-  x = build_ref_plain(ra, t, r)
+def build_ref(ra, t, r=None, share=False):
+  x = build_ref_plain(ra, t, r, share)
   # alias chains: a reference whose target is another reference denotes what that one denotes (union-find links,
   # as left behind by earlier unifications); the type is the same, every chain-following path is exercised
   while r is not None and r.random() < 0.25:
@@ -115,14 +115,14 @@ def is_ground(t):
   return t[1] and all(is_ground(v) for _, v in t[2])
 
 
-def build_ref_plain(ra, t, r=None, shared=None):
+def build_ref_plain(ra, t, r=None, share=False):
   if isinstance(t, str):
     return ra.TypeReference(t)
   if t[0] == 'list':
     e = t[1]
     if isinstance(e, str) and r is not None and r.random() < 0.3:
       return ra.TypeReference([e])          # concrete element, as the inference engine also builds
-    return ra.TypeReference([build_ref(ra, e, r)])
+    return ra.TypeReference([build_ref(ra, e, r, share)])
   cls = ra.ClosedRecord if t[1] else ra.OpenRecord
   d = {}
   local = {}            # ground, non-atomic field types seen in this record: the same reference object is used again
@@ -131,10 +131,10 @@ def build_ref_plain(ra, t, r=None, shared=None):
       d[f] = v
     else:
       key = json.dumps(v)
-      if r is not None and not isinstance(v, str) and is_ground(v) and key in local and r.random() < 0.7:
+      if share and r is not None and not isinstance(v, str) and is_ground(v) and key in local and r.random() < 0.7:
         d[f] = local[key]
       else:
-        d[f] = build_ref(ra, v, r)
+        d[f] = build_ref(ra, v, r, share)
         local[key] = d[f]
   return ra.TypeReference(cls(d))
 
@@ -267,6 +267,16 @@ def coq_history(terms, steps):
                            '; '.join('(%s, [%s])' % (cop(op), '; '.join(coq_term(v) for v in view)) for op, view in steps))
 
 
+def run_shared(ra, a, b, r):
+  """Unify on references in which equal ground sub-terms of one record are ONE shared reference object."""
+  try:
+    x, y = build_ref(ra, a, r, share=True), build_ref(ra, b, r, share=True)
+    ra.Unify(x, y)
+    return read_back(ra, x), read_back(ra, y)
+  except Exception as e:  # pylint: disable=broad-except
+    return 'Bad', 'Bad'
+
+
 def run_elem(ra, a, b, r=None):
   """`b in a`: UnifyListElement on fresh references; read-backs of the list and of the element."""
   try:
@@ -368,13 +378,16 @@ def run(tier, replay=None):
     tri_cases.append('(%s, %s, %s, [%s])' % (coq_term(ts[0]), coq_term(ts[1]), coq_term(ts[2]),
                                             '; '.join(coq_term(x) for x in rs)))
 
+  shared_pairs = [] if replay else [p for p in pairs[len(depth1_terms()) ** 2:] if '"rec"' in json.dumps(p)][:3000 if tier == 'quick' else 60000]
+  shared_obs = [run_shared(ra, a, b, r) for a, b in shared_pairs]
+  shared_cases = ['(%s, %s, %s, %s)' % (coq_term(a), coq_term(b), coq_term(x), coq_term(y)) for (a, b), (x, y) in zip(shared_pairs, shared_obs)]
   elem_obs = [run_elem(ra, a, b, r) for a, b in elems]
   elem_cases = ['(%s, %s, %s, %s)' % (coq_term(a), coq_term(b), coq_term(x), coq_term(y)) for (a, b), (x, y) in zip(elems, elem_obs)]
   hist_steps = [run_history(ra, ts, ops, r) for ts, ops in hists]
   hist_cases = [coq_history(ts, st) for (ts, _), st in zip(hists, hist_steps)]
 
   # --- model side
-  codes = codes3 = codesh = codese = None
+  codes = codes3 = codesh = codese = codess = None
   if ok:
     codes, out = eval_cases('judge', chunked(pair_cases, 1500))
     if codes is not None:
@@ -383,7 +396,9 @@ def run(tier, replay=None):
       codesh, out = eval_cases('judge_hist', chunked(hist_cases, 500)) if hist_cases else ([], '')
     if codesh is not None:
       codese, out = eval_cases('judge_elem', chunked(elem_cases, 1500)) if elem_cases else ([], '')
-    if codes is None or codes3 is None or codesh is None or codese is None:
+    if codese is not None:
+      codess, out = eval_cases('judge_sh', chunked(shared_cases, 1500)) if shared_cases else ([], '')
+    if codes is None or codes3 is None or codesh is None or codese is None or codess is None:
       ok = False
       info['excerpt'] = out[-3000:]
 
@@ -417,6 +432,16 @@ def run(tier, replay=None):
               'law': 'for a clash-free set of constraints every unification order reads back the meet of all'})
       elif c == 1:
         broken_ties.append(ts)
+  if codess is not None:
+    for (a, b), (x, y), c in zip(shared_pairs, shared_obs, codess):
+      if c != 0:
+        # 3: the tree reading clashes, the implementation (with a shared sub-reference) reports nothing - known finding
+        key = 'shared-subreference:lost-clash' if c == 3 else 'shared:%s:%s' % ('spurious-clash' if c == 4 else 'types', common.short_hash([a, b]))
+        if rep.violation(key, {'a': a, 'b': b, 'observed': [x, y], 'judge_code': c,
+                               'law': 'a record in which two fields hold the SAME reference object (a ground type) unifies like the '
+                                      'record with two separate references of that type (oracle: Coq meet on the tree reading)',
+                               'how': 'props.c16.run_shared: build_ref(..., share=True) on both terms, reference_algebra.Unify'}):
+          found += 1
   if codese is not None:
     for (a, b), (x, y), c in zip(elems, elem_obs, codese):
       if c != 0:
@@ -454,7 +479,7 @@ def run(tier, replay=None):
       'exhaustive': False,
       'samples': [{'a': pairs[i][0], 'b': pairs[i][1]} for i in (200, 5000, len(pairs) - 1) if i < len(pairs)] +
                  [{'terms': list(triples[0])}] if triples else [],
-      'distribution': {'pairs': len(pairs), 'triples': len(triples), 'histories': len(hists), 'element_pairs': len(elems),
+      'distribution': {'pairs': len(pairs), 'triples': len(triples), 'histories': len(hists), 'element_pairs': len(elems), 'shared_pairs': len(shared_pairs), 'shared_tie_codes': {str(k): (codess or []).count(k) for k in (0, 2, 3, 4)},
                        'element_tie_exact': (codese or []).count(0),
                        'history_steps': sum(len(st) for st in hist_steps), 'history_closes': sum(1 for st in hist_steps for op, _ in st if op[0] == 'close'),
                        'histories_ending_in_clash': sum(1 for st in hist_steps if st and any(has_bad(v) for v in st[-1][1])),
